@@ -41,4 +41,57 @@ theorem ws_writeLiteral {w : Writer} {L : Nat} {nl : Bool} (hw : WS w L nl) (ite
         rw [← Array.getLast?_toList]; simp [List.getLast?_append, hl]
       rw [this]; simp
 
+def finalNl : Bool → List (PatElem Bytes) → Bool
+  | nl, [] => nl
+  | _, .text v :: es => finalNl (endsNl v) es
+  | _, .placeable _ :: es => finalNl false es
+
+theorem serElements_ml (L : Nat) (es : List (PatElem Bytes)) :
+    ∀ (hpl : ∀ x, PatElem.placeable x ∈ es → PlRT L x) (nl : Bool) (w : Writer), mlElems nl es = true → WS w L nl →
+      ∃ w', serElements w es = some w' ∧ w'.buffer = w.buffer ++ (elemsText L nl es).toArray ∧
+        WS w' L (finalNl nl es) := by
+  induction es with
+  | nil => intro _ nl w _ hw; exact ⟨w, by simp [serElements], by simp [elemsText], hw⟩
+  | cons e es ih =>
+    intro hpl nl w hml hw
+    have hpl' : ∀ x, PatElem.placeable x ∈ es → PlRT L x := fun x hx => hpl x (List.mem_cons_of_mem _ hx)
+    cases e with
+    | text v =>
+      simp only [mlElems, Bool.and_eq_true] at hml
+      obtain ⟨⟨⟨hvok, _⟩, _⟩, hml'⟩ := hml
+      have hvne := mlTextOK_ne hvok
+      have h13 : v.getLast? ≠ some 13 := by
+        intro h; exact (mlTextOK_mem hvok 13 (List.mem_of_getLast? h)).1 rfl
+      obtain ⟨hbuf, hw1⟩ := ws_writeLiteral hw v hvne h13
+      obtain ⟨w', h1, h2, h3⟩ := ih hpl' (endsNl v) (w.writeLiteral v) hml' hw1
+      refine ⟨w', by simp only [serElements, serElement, h1], ?_, by simpa [finalNl] using h3⟩
+      rw [h2, hbuf]
+      apply Array.ext'
+      simp [elemsText]
+    | placeable x =>
+      have hml' : mlElems false es = true := by simpa [mlElems] using hml
+      obtain ⟨w1, hs1, hbuf, hw1⟩ := (hpl x (List.mem_cons_self)).ser w nl hw
+      obtain ⟨w', h1, h2, h3⟩ := ih hpl' false w1 hml' hw1
+      refine ⟨w', by simp only [serElements, hs1, h1], ?_, by simpa [finalNl] using h3⟩
+      rw [h2, hbuf]
+      apply Array.ext'
+      simp [elemsText]
+
+theorem finalNl_last (nl : Bool) (es : List (PatElem Bytes)) (hne : es ≠ []) (hl : mlLastOK es = true) :
+    finalNl nl es = false := by
+  induction es generalizing nl with
+  | nil => exact absurd rfl hne
+  | cons e es ih =>
+    cases es with
+    | nil =>
+      cases e with
+      | text v =>
+        simp only [mlLastOK, Bool.and_eq_true, bne_iff_ne, ne_eq] at hl
+        simp only [finalNl, endsNl, beq_eq_false_iff_ne, ne_eq]
+        exact hl.2
+      | placeable x => rfl
+    | cons e2 rest =>
+      have := fun nl' => ih nl' (by simp) (mlLastOK_tail hl)
+      cases e <;> simp only [finalNl] <;> exact this _
+
 end FluentProofs.Ser
